@@ -28,7 +28,9 @@ def forms(k):
 
 AUX = {"kw": {k: forms(k) for k in KWS}, "mb": ["é", "✓", "😀", " ", "﻿"],
        "seps": [" ", "\n", "\t", "  ", "\r\n", "\r"], "comments": [" # c\n", " #\n", "\n# SELECT { \n", " # c\r", " # } LIMIT 1\r\n", "\r# é\r"],
-       "tails": [" # done", "\n#", "\r"]}
+       "tails": [" # done", "\n#", "\r"],
+       "cuts": ['"x\\u00E', "'x\\U0001F6", '"\\u', '"a\\', '"abc', "'", '<http://e/\\u00', '<http://e/\\U0000000', '<http://e/i', '"x\\u00é', "?", "$", "_:", '"l1"^^', '"l1"@',
+                '"""abc', "<<", "<< <http://e/i1>", "1.", "-", "+", "1e", "\\"]}
 # variable names outside ASCII (SPARQL VARNAME admits letters and digits of any script), and ones that end in a digit / underscore
 NAMES = [{"a": "é", "b": "café", "c": "x中", "d": "ß2", "g": "g"}, {"a": "a_1", "b": "B", "c": "ça", "d": "d9", "g": "gé"},
          {"a": "ñandú", "b": "b", "c": "Ω", "d": "x_", "g": "γ"}]
